@@ -67,6 +67,7 @@ def run(check, prog):
     constructors(check, prog)
     csg_motion(check, prog)
     bounds_search(check, prog)
+    bounds_union(check, prog)
     domain_count(check, prog)
     # translating a scatterer translates its region: nothing remembered on the
     # object survives the copy that translated() starts from (shared with C19)
@@ -411,6 +412,76 @@ def pair_loop(prog, q, it):
     """(outer iter, inner iter) of the i<j pair enumeration in method q"""
     lps = [l for l in it.loops.values() if l['func'] == q and l['iter'] is not None]
     return lps
+
+
+def bounds_union(check, prog):
+    """K6b: the bounding box of a scatterer with several domains (a layered sphere)
+    is the union of the boxes of all its indicator functions: along every axis the
+    smallest lower and the largest upper bound, accumulated over *every* function
+    starting from an empty box at the origin (which every indicator contains)."""
+    S_ = SC + 'scatterer.'
+    q = S_ + 'bound_union'
+    fd = prog.func(q)
+    loc = prog.loc(q, fd)
+    it = Interp(prog, max_depth=1)
+    res = it.analyze(q)
+    d1, d2 = [sym(a.arg) for a in fd.args.args[:2]]
+
+    def item(t, k):
+        """value of t[k] after the stores recorded in the upd chain of t"""
+        key = num(k)
+        while t[0] == 'upd':
+            if t[2] == 'item' and t[3] == key:
+                return t[4]
+            t = t[1]
+        if t[0] in ('list', 'tuple') and k < len(t[1]):
+            return t[1][k]
+        return None
+    ok = True
+    detail = ''
+    for i in range(3):
+        row = item(res.ret, i)
+        for j, fn in ((0, 'min'), (1, 'max')):
+            got = item(row, j) if row is not None else None
+            a = intern(('idx', ('idx', d1, num(i)), num(j)))
+            b = intern(('idx', ('idx', d2, num(i)), num(j)))
+            good = got is not None and got[0] == 'call' and got[1] == fn and \
+                set(got[2]) == {a, b}
+            if not good:
+                ok = False
+                detail = 'new[%d][%d] = %s' % (i, j, show(got)[:80] if got else None)
+    check.require(ok, 'K6-bounds-union', 'bound_union',
+                  'new[i] = [min of the lower bounds, max of the upper bounds] for '
+                  'each of the three axes', loc, fail_detail=detail)
+    qi = S_ + 'Indicators.__init__'
+    fdi = prog.func(qi)
+    iti = Interp(prog, max_depth=1, opaque=[q, S_ + 'find_bounds'])
+    iti.analyze(qi)
+    stores = [e for e in iti.effects if e['kind'] == 'setattr' and e['attr'] == 'bound']
+    none_b = ('cmp', 'is not', sym('bound'), NONE)
+    given = [e for e in stores if (none_b, True) in [(t, p) for t, p in e['cond']]]
+    start = [e for e in stores if (none_b, False) in [(t, p) for t, p in e['cond']]
+             and not any(t[0] == 'loop-iter' for t, p in e['cond'])]
+    step = [e for e in stores if any(t[0] == 'loop-iter' for t, p in e['cond'])]
+    zero = intern(('list', tuple(('list', (num(0), num(0))) for _ in range(3))))
+    fns = [e['value'] for e in iti.effects if e['kind'] == 'setattr' and
+           e['attr'] == 'functions']
+    oks = len(given) == 1 and given[0]['value'] == sym('bound') and \
+        len(start) == 1 and start[0]['value'] == zero and len(step) == 1
+    if oks:
+        v = step[0]['value']
+        oks = v[0] == 'call' and v[1] == q and len(v[2]) == 2
+        if oks:
+            acc = [x for x in v[2] if x[0] == 'attr' and x[2] == 'bound']
+            fb = [x for x in v[2] if x[0] == 'call' and x[1] == S_ + 'find_bounds']
+            oks = len(acc) == 1 and len(fb) == 1 and fb[0][2] and \
+                fb[0][2][0][0] == 'elem' and bool(fns) and fb[0][2][0][1] == fns[0]
+    check.require(oks, 'K6-bounds-union', 'Indicators.__init__',
+                  'a given bound is kept; otherwise the box is the union, over every '
+                  'indicator function, of find_bounds(function), started from the '
+                  'empty box at the origin', prog.loc(qi, fdi),
+                  fail_detail='self.bound is assigned %s' % [
+                      show(e['value'])[:80] for e in stores])
 
 
 def own_member_list(check, prog):
